@@ -597,6 +597,19 @@ def check_definitions(ctx, U):
             e = sp.floor(sp.log(k, 2)) if k > 0 else None
             ulp = sp.Rational(2) ** (int(e) - mant) if e is not None else 0
             dist = sp.N(sp.Abs(k - sp.pi / 180), 80)
+            # pi/180 < 1, so deg2rad(x) is representable for every finite x: no intermediate may exceed |x|
+            big = None
+            for P_ in s.paths:
+                for _, it in P_.fpvals:
+                    kk = sp.cancel(it / x) if not unknown_atoms(it, ()) else None
+                    if kk is not None and kk.is_Rational and abs(kk) > 1 and (big is None or abs(kk) > abs(big[0])):
+                        big = (kk, it)
+            if k > 0 and dist <= 2 * ulp and big is not None:
+                ctx.violation(R, inst, 'the intermediate `%s` = %.6g * x exceeds |x|: it overflows to infinity for finite |x| > FLT_MAX / %.4g '
+                              '(the last binades of the float range), although the result x * pi/180 is representable for every finite x; '
+                              'the factor has to be applied as one constant below 1 (x * (pi / 180))' % (big[1], float(big[0]), float(big[0])),
+                              RKMATH, key='%s|%s|deg2rad|intermediate-range' % (R, RKMATH))
+                continue
             if k > 0 and dist <= ulp:
                 ctx.ok(R, inst, 'x * %s; |constant - pi/180| = %.3g ulp' % (k, float(dist / ulp)), RKMATH)
             else:
@@ -791,8 +804,13 @@ def check_packing(ctx, U):
                     except Undecided as ex:
                         und.append(str(ex))
                         continue
+                    foreign = sorted({str(z) for l_ in g2 for z in l_.free_symbols} - {str(z) for z in deps[k]})
                     if found:
                         probs.append(('channel-%s' % names[k], 'channel %s is packed at bit %d instead of bit %d' % (names[k], 8 * found[0], 8 * k)))
+                    elif not (field.free_symbols & deps[k]) and foreign and not any(str(z) in {str(y) for y in deps[k]} for l_ in g2 for z in l_.free_symbols):
+                        probs.append(('not-per-channel', 'on the path `%s`, which tests only %s, the byte of channel %s is the constant %s whatever '
+                                      '%s is: the packed channel depends on another component instead of on its own value alone (the packing '
+                                      'is neither per-channel nor saturating there)' % (show_guard(g2), ', '.join(foreign), names[k], field, names[k])))
                     else:
                         probs.append(('channel-%s' % names[k], 'on the path `%s` the field of channel %s is %s, not cvt_uint32(%s) << %d'
                                       % (show_guard(g2), names[k], field, names[k], 8 * k)))
